@@ -204,3 +204,38 @@ func loopExitDecisions(hdr *ssa.BasicBlock) []string {
 	sort.Strings(out)
 	return out
 }
+
+// frozenSkips: the decisions after which the current element of a loop in fn can no longer reach a
+// "progress" instruction must equal the audited list (rendered by definition, conjunction chains
+// sorted, emptiness tests canonical). learnTag != "" prints candidates under SCALINT_LEARN.
+func frozenSkips(p *Prog, r *Report, rule, site string, fn *ssa.Function, progress func(ssa.Instruction) bool, want []string, learnTag, why string) {
+	defer func(d int, a bool) { renderDepth, renderAllocs = d, a }(renderDepth, renderAllocs)
+	renderDepth, renderAllocs = 10, true
+	got := loopSkips(fn, progress)
+	if os.Getenv("SCALINT_LEARN") != "" {
+		for _, g := range got {
+			fmt.Fprintf(os.Stderr, "LEARN-%s\t%q,\n", learnTag, g)
+		}
+		return
+	}
+	w := map[string]int{}
+	for _, x := range want {
+		w[x]++
+	}
+	h := map[string]int{}
+	for _, x := range got {
+		h[x]++
+	}
+	for x, n := range h {
+		if n > w[x] {
+			r.Fail(rule, site+":new:"+short(x, 120), p.Pos(fn.Pos()), why+" — unaudited decision: "+x)
+		} else {
+			r.OK(rule, site+":"+short(x, 120), p.Pos(fn.Pos()), "audited decision")
+		}
+	}
+	for x, n := range w {
+		if h[x] < n {
+			r.Fail(rule, site+":missing:"+short(x, 120), p.Pos(fn.Pos()), "the audited decision '"+x+"' is gone or was rewritten")
+		}
+	}
+}
